@@ -33,6 +33,11 @@ LEAVES = [
     # D23b repair: the replay of the cache to the new listener uses the purge's reading of the clock
     ("Cache", "add_listener_replay_now", "_handlers/record_manager.py", "RecordManager.async_add_listener", ("arg", "_async_update_matching_records", 2, 0),
      [P("now", "now")], "num", {}),
+    # D24 repair: `cache.async_remove_records([record for record in removes if cache.async_get_unique(record) is not None])` -- a
+    # first-round callback may have purged (async_add_listener with a question) a record the datagram withdraws.  On a tree without
+    # the filter every withdrawn record is handed to async_remove_records: the leaf is the constant `True` there.
+    ("Cache", "removes_keep_test", "_handlers/record_manager.py", "RecordManager.async_updates_from_response", ("compif", 0),
+     [P("cache.async_get_unique(record) is not None", "still_cached", "bool")], "bool", {"absent": True}),
     # ---- _engine.py: the periodic purge uses ONE reading of the clock: the instant it sweeps the cache with is the instant it
     # tells the listeners (a second `current_time_millis()` is not in the translator's subset: fails closed)
     ("Cache", "purge_expire_now", "_engine.py", "AsyncEngine._async_cache_cleanup", ("arg", "cache.async_expire", 0, 0),
